@@ -154,8 +154,8 @@ Definition k_created (E : env) (pre : state) (o : op) (post : state) : bool :=
      end)) (map_to_list (ongoing post)).
 
 (* K3: every change of a wrapped balance is justified.  Result per account: 0 fine, 1 violation,
-   2 violation inside the trigger region C15.mint_to_report_locker with its effect signature (the
-   exact locked amount went to the Locker named in the threshold-crossing report). *)
+   2 violation with the signature of the repaired defect C15.mint_to_report_locker (the exact
+   locked amount went to the Locker named in the threshold-crossing report instead of the owner). *)
 Definition k_balance_one (E : env) (pre : state) (o : op) (post : state) (a : acct) : nat :=
   let d := balof (bal post) a - balof (bal pre) a in
   if d =? 0 then 0%nat
@@ -246,8 +246,8 @@ Definition pays (pre : state) (o : op) (post : state) : option (bool * name) :=
   | _ => None
   end.
 
-(* (check id, class): class 0 = violation outside the known triggers, 1 = C15.mint_to_report_locker,
-   2 = C15.supply_address_transacts *)
+(* (check id, class): class 0 = violation outside the known triggers, 2 = C15.supply_address_transacts;
+   check id 8 = check 3 failing with the signature of the repaired defect C15.mint_to_report_locker *)
 Definition step_findings (E : env) (touched : bool) (minted refunded : list name)
            (pre : state) (o : op) (post : state) (ok : bool) : list (nat * nat) :=
   let here := trig_supply E pre o in
@@ -257,7 +257,7 @@ Definition step_findings (E : env) (touched : bool) (minted refunded : list name
   (if here then [] else
      match k_balance E pre o post with
      | 0%nat => []
-     | 2%nat => [(3%nat, if trig_locker pre o then 1%nat else 0%nat)]
+     | 2%nat => [(8%nat, 0%nat)]
      | _ => [(3%nat, 0%nat)]
      end) ++
   (if k_votes pre o post then [] else [(4%nat, 0%nat)]) ++
@@ -307,7 +307,7 @@ Fixpoint stats_run (E : env) (s : state) (ops : list op) (acc : list Z) : list Z
                 let crossy := gv && b && (threshold t <=? yes_votes t + 1) in
                 let crossn := gv && negb b && (threshold t <=? no_votes t + 1) in
                 [g + (if gv then 1 else 0); cy + (if crossy then 1 else 0); cn + (if crossn then 1 else 0);
-                 ll + (if crossy && trig_locker s o then 1 else 0); ts + (if trig_supply E s o then 1 else 0)]
+                 ll + (if crossy && lying_locker s o then 1 else 0); ts + (if trig_supply E s o then 1 else 0)]
             | None => [g; cy; cn; ll; ts + (if trig_supply E s o then 1 else 0)]
             end
         | _ => [g; cy; cn; ll; ts + (if trig_supply E s o then 1 else 0)]
